@@ -98,6 +98,7 @@ func (ds *dataStore) AppendRecord(rec *Record) (pos Position, err error) {
 }
 
 func (ds *dataStore) flush(chunk int, force bool) error {
+	verifPoint("data.flush.begin")
 	if ds.wbufSize == 0 {
 		return nil
 	}
